@@ -572,7 +572,7 @@ def job_fp(j, seed):
         # output: crossing on edge 0-1 comes last (after vertex 1, 2 and the crossing on edge 2-0)? order: i=0 outside -> crossing(0,1); 1; 2; crossing(2,0)
         v = ow[0]
         n += 1
-        ob = C.prove(f'fp:path{k}:interpolated wavelength on a horizontal edge equals the edge wavelength bit-for-bit', v == a, pc=p.pc, timeout_ms=120000)
+        ob = C.prove(f'fp:path{k}:interpolated wavelength on a horizontal edge equals the edge wavelength bit-for-bit', v == a, pc=p.pc, timeout_ms=300000)
         obs.append(ob_dict(ob))
         if ob.status == 'violated':
             zm = ob.model
@@ -587,6 +587,8 @@ def run(chk):
     from symex import loader
 
     chk.functions = loader.describe_exprs(['cc.propagate_times', 'cc.wavelength_to_inverse_velocity', 'cc.Subframe.__init__', 'cc.Subframe.propagate_by', 'cc.Subframe.is_regular', 'cc.Frame.propagate_to', 'cc.Frame.chop', 'cc.Frame.subbounds', 'cc.FrameSequence.from_source_pulse', 'cc.FrameSequence.chop', 'cc._chop'], {**globals(), **locals()})
+    # the bit-precise lemma first and alone: its (single) query is sensitive to CPU contention
+    run_jobs(chk, job_fp, [0])
     ns = [3, 4, 5] if chk.tier == 'quick' else [3, 4, 5, 6]
     run_jobs(chk, job_clip, [(n, c) for n in ns for c in (True, False)])
     run_jobs(chk, job_propagate, [0])
@@ -594,7 +596,6 @@ def run(chk):
     run_jobs(chk, job_getitem, [2, 3] if chk.tier == 'quick' else [2, 3, 4])
     run_jobs(chk, job_framechop, [(1, 2), (2, 2)] if chk.tier == 'quick' else [(1, 2), (2, 2), (1, 3), (2, 3)])
     run_jobs(chk, job_regular, ['is_regular', 'subbounds'])
-    run_jobs(chk, job_fp, [0])
     chk.bounds = {'polygon vertices': ns, 'clip': 'one clipping step from an arbitrary polygon, all inside patterns (inductive step)',
                   'regularity': 'pulse rectangle + one chopper window at a symbolic distance (all clip patterns)',
                   'floating point': 'Float64, a in [1e-3,1e3], times in [0,10], one horizontal edge'}
